@@ -15,6 +15,7 @@ type Unit struct {
 	OnlyThorough bool
 	MaxPaths     int
 	Only         string // only checks whose id starts with this prefix belong to the property
+	SameEmits    bool   // all explored paths of one Cover class must emit identical files (C12)
 }
 
 // ---- shared L3 units (HarnessL3: whole generator on a symbolic schema + emitted code on a
@@ -137,7 +138,8 @@ func init() {
 		l3Unit("scalars", map[string]int{"KINDS": 15, "DEPTH": 0, "NUMSHAPES": 2, "STRSHAPES": 2}, "C04.", "required/optional x nullable x inline/$ref for scalar properties"),
 		l3Unit("maps-enums-formats", l3Enums, "C04.", "required/optional typed maps, enums, untyped and format-typed properties"),
 		l3Unit("nested-objects", l3Objects, "C04.", "required members of a nested object (which is itself required or optional)"))
-	reg(&Property{ID: "C01", Units: l3All("C01."),
+	reg(&Property{ID: "C01", Units: append(l3All("C01."),
+		l3Unit("min-sized-ints", map[string]int{"KINDS": 4, "DEPTH": 0, "MINSIZED": 1}, "C01.", "integer properties with --min-sized-ints on and off: every bound literal fits the sized type that was chosen")),
 		Assumptions: []string{"go/types with the real dependency packages decides type-correctness; gofmt stability is checked on the text with hole identifiers (holes never sit in aligned columns)"}})
 	reg(&Property{ID: "C02", Units: l3All("C02.")})
 	reg(&Property{ID: "C03", Units: l3All("C03.")})
@@ -146,6 +148,32 @@ func init() {
 		l3Unit("enums-in-arrays-and-objects", map[string]int{"KINDS": 48, "DEPTH": 1, "ITEMKINDS": 192}, "C08.", "enums as array items and object members"),
 	}})
 	reg(&Property{ID: "C19", Units: l3All("C19.")})
+	reg(&Property{ID: "C09", Units: []Unit{
+		{Name: "defaults", Harness: "pkg/generator:HarnessC09", Layer: "L3",
+			Desc:   "whole generator on properties with a default (string, number, integer, boolean, string enum, array of strings; nullable or not; required or not; with symbolic constraints that admit the default); emitted code on a symbolic document: absent or null member accepted and the decoded field equals the default, present value kept, default literal type-checks in its field",
+			Bounds: "one property; default values are concrete representatives (they travel through litter.Sdump), constraints symbolic (exact grid), document arrays <= N",
+			Quick:  map[string]int{"GRID": 2, "GRIDMAG": 36, "N": 2, "DEFAULTS": 1, "NUMSHAPES": 4, "STRSHAPES": 3, "ARRSHAPES": 3, "ITEMKINDS": 1, "MINSIZED": 1},
+			Panic:  "inconclusive"},
+	}})
+	reg(&Property{ID: "C17", Units: []Unit{
+		{Name: "yaml-vs-json/scalars-and-string-enums", Harness: "pkg/generator:HarnessC17", Layer: "L3",
+			Desc:   "generator with --extra-imports; both emitted methods of every type run symbolically on the same symbolic type-correct document (valid, or violating required/bound/length/pattern/string-enum rules): same verdict, equal decoded values",
+			Bounds: "shapes: string/number/integer/boolean/string-enum properties x nullable x required x inline/$ref; default tag set; yaml.v3 and encoding/json decode stubs agree on type-correct input (assumption, validated on replay)",
+			Quick:  map[string]int{"GRID": 2, "GRIDMAG": 36, "N": 2},
+			Panic:  "inconclusive"},
+		{Name: "yaml-vs-json/arrays-and-objects", Harness: "pkg/generator:HarnessC17", Layer: "L3",
+			Desc:   "same for arrays of scalars and a nested object",
+			Bounds: "as above, document arrays <= 2 elements",
+			Quick:  map[string]int{"GRID": 2, "GRIDMAG": 36, "N": 2, "KINDS": 48, "DEPTH": 1, "ITEMKINDS": 71, "NUMSHAPES": 3, "STRSHAPES": 2, "ARRSHAPES": 3},
+			Panic:  "inconclusive"},
+	}, Assumptions: []string{"for type-correct documents yaml.v3's Decode and encoding/json's Unmarshal fill Go values identically (binding by the yaml / json tag of the default tag set)"}})
+	reg(&Property{ID: "C12", Units: []Unit{
+		{Name: "map-order-schedules", Harness: "pkg/generator:HarnessC12", Layer: "L3", MapOrd: 3, SameEmits: true,
+			Desc:   "every `range` over a Go map executed in repository code (sites discovered dynamically: sortedKeys, sortDefinitionsByName, Sources, beginOutput, hasDecl...) is a schedule choice; all orders of maps with <= 3 entries are explored and every schedule must emit byte-identical files under identical names (hole terms compared syntactically)",
+			Bounds: "two harness shapes (single file with 3 properties / 2 definitions; two schema ids mapped to two files and packages); maps with <= K=3 entries per site; schedules are enumerated by forking -- the solver contributes nothing here beyond hole identity (weakest fit of the family, stated in DESIGN §8 C12); JSON key permutation is map order after parsing; directory independence and main.go's allKeys are not covered",
+			Quick:  map[string]int{"SHAPES": 2},
+			Panic:  "inconclusive"},
+	}})
 	reg(&Property{
 		ID: "C15",
 		Units: []Unit{
